@@ -1,7 +1,7 @@
 //! C10 — conditions decide what their names say; loops make exactly n passes.
 //! Code: mahf::conditions::common::{LessThanN,EveryN,ChangeOf,PartialEqChecker,DeltaEqChecker,OptimumReached,RandomChance}::{init,evaluate,from_params}
 //! Code: mahf::conditions::logical::{And,Or,Not} (+ the & | ! operators), mahf::components::Loop, mahf::state::common::{Iterations,Evaluations,Progress}, mahf::lens::ValueOf
-//! Out: And/Or over several operands and the loop harnesses are thorough-tier, best effort (every `dyn Condition` call may dispatch back to And/Or/Not::evaluate, and the engine explores that recursion to the unwind bound: the 2-operand And ran out of 6 GB); quick tier decides Not only; EveryN with n = 0 (division by zero; the statement speaks of multiples of n); RandomChance with p outside [0,1] (Bernoulli::new panics; undocumented precondition)
+//! Out: And/Or over 3 operands and nested formulas are thorough-tier (out of 12 GB); the quick tier decides And and Or over 2 operands (with the spurious self-dispatch of And/Or::evaluate capped at one level through --unwindset), Not, and loops with n <= 3; EveryN with n = 0 (division by zero; the statement speaks of multiples of n); RandomChance with p outside [0,1] (Bernoulli::new panics; undocumented precondition)
 //! Assume: one evaluation of each condition from a prepared one-scope state with symbolic observed value and parameters; change-of over symbolic histories of length 3; logical formulas over counting operands with symbolic answers
 use better_any::{Tid, TidAble};
 use derive_more::{Deref, DerefMut};
@@ -539,7 +539,7 @@ impl Condition<TagP> for Opd {
 fn opd(id: u8) -> Box<dyn Condition<TagP>> {
     Box::new(Opd { id })
 }
-fn junction(is_and: bool, k: usize) {
+fn junction_setup(k: usize) -> ([bool; 4], Vec<Box<dyn Condition<TagP>>>) {
     let a = [sym::bool(), sym::bool(), sym::bool(), false];
     unsafe {
         ANS4 = a;
@@ -547,39 +547,59 @@ fn junction(is_and: bool, k: usize) {
         SEQ = [9; 4];
     }
     let ops: Vec<Box<dyn Condition<TagP>>> = if k == 2 { vec![opd(0), opd(1)] } else { vec![opd(0), opd(1), opd(2)] };
-    let f = if is_and { And::new(ops) } else { Or::new(ops) };
-    let mut s: State<TagP> = State::new();
-    let r = ok_bool(f.evaluate(&TagP, &mut s));
-    let want = if is_and {
-        a[0] && a[1] && (k == 2 || a[2])
-    } else {
-        a[0] || a[1] || (k == 3 && a[2])
-    };
+    (a, ops)
+}
+fn junction_check(r: bool, want: bool, k: usize) {
     assert!(r == want, "And/Or combine the operand results as the Boolean operators do");
     unsafe {
         assert!(CALLS == k, "every operand is evaluated exactly once per evaluation (no short-circuit)");
         assert!(SEQ[0] == 0 && SEQ[1] == 1 && (k == 2 || SEQ[2] == 2), "each operand once, in order");
     }
-    vcover!(a[0] != a[1], "operands disagree");
+}
+/// Only `And` (resp. `Or`) and the operand type implement `dyn Condition` in these harnesses, and
+/// the spurious self-dispatch of And/Or::evaluate is capped by a per-function recursion bound
+/// (`reclimit`, passed to CBMC as --unwindset; unwinding assertions stay on).
+fn and_k(k: usize) {
+    let (a, ops) = junction_setup(k);
+    let f = And::new(ops);
+    let mut s: State<TagP> = State::new();
+    let r = ok_bool(f.evaluate(&TagP, &mut s));
+    junction_check(r, a[0] && a[1] && (k == 2 || a[2]), k);
+    vcover!(!a[0] && a[1], "first false, later true");
     std::mem::forget((s, f));
 }
-/// @h tier=thorough bound="And over 2 operands (single operand type), all answers" unwind=3 cost=9 mem=28 timeout=3000
+fn or_k(k: usize) {
+    let (a, ops) = junction_setup(k);
+    let f = Or::new(ops);
+    let mut s: State<TagP> = State::new();
+    let r = ok_bool(f.evaluate(&TagP, &mut s));
+    junction_check(r, a[0] || a[1] || (k == 3 && a[2]), k);
+    vcover!(a[0] && !a[1], "first true, later false");
+    std::mem::forget((s, f));
+}
+/// @h tier=quick bound="And over 2 operands, all answers" unwind=3 cost=5 mem=12 timeout=900 reclimit="<mahf::conditions::And<.*> as mahf::conditions::Condition<.*>>::evaluate=1"
 #[cfg_attr(kani, kani::proof)]
 #[cfg_attr(kani, kani::unwind(3))]
 pub fn h_c10_and2s() {
-    junction(true, 2)
+    and_k(2)
 }
-/// @h tier=thorough bound="Or over 2 operands (single operand type), all answers" unwind=3 cost=9 mem=28 timeout=3000
+/// @h tier=quick bound="Or over 2 operands, all answers" unwind=3 cost=5 mem=12 timeout=900 reclimit="<mahf::conditions::Or<.*> as mahf::conditions::Condition<.*>>::evaluate=1"
 #[cfg_attr(kani, kani::proof)]
 #[cfg_attr(kani, kani::unwind(3))]
 pub fn h_c10_or2s() {
-    junction(false, 2)
+    or_k(2)
 }
-/// @h tier=thorough bound="Or over 3 operands (single operand type), all answers" unwind=4 cost=9 mem=28 timeout=2400
+/// @h tier=thorough bound="Or over 3 operands, all answers" unwind=4 cost=9 mem=40 timeout=3000 reclimit="<mahf::conditions::Or<.*> as mahf::conditions::Condition<.*>>::evaluate=1"
 #[cfg_attr(kani, kani::proof)]
 #[cfg_attr(kani, kani::unwind(4))]
 pub fn h_c10_or3s() {
-    junction(false, 3)
+    or_k(3)
+}
+/// @h tier=thorough bound="And over 3 operands, all answers" unwind=4 cost=9 mem=40 timeout=3000 reclimit="<mahf::conditions::And<.*> as mahf::conditions::Condition<.*>>::evaluate=1"
+#[cfg_attr(kani, kani::proof)]
+#[cfg_attr(kani, kani::unwind(4))]
+pub fn h_c10_and3s() {
+    and_k(3)
 }
 
 // ---- loops make exactly n passes -----------------------------------------------------------------------------------------
